@@ -37,7 +37,7 @@ def _case(draw):
     case["levels"] = draw(gen.levels(len(z), 1, 3))
     case["q1"] = draw(gen.source(case["ny"], case["nx"]))
     case["q2"] = draw(gen.source(case["ny"], case["nx"]))
-    case["a"] = draw(st.one_of(gen.fl(-4.0, 4.0), st.sampled_from([1.0, -1.0, 0.0, 2.0])))
+    case["a"] = draw(st.one_of(gen.fl(-4.0, 4.0), st.sampled_from([1.0, -1.0, 0.0, 2.0, 1e-9, -1e9, 2.0**-30, 2.0**30])))  # incl. fluxes in other units
     case["b"] = draw(st.one_of(gen.fl(-4.0, 4.0), st.sampled_from([1.0, -1.0, 0.0, 0.5])))
     case["c1"] = draw(st.sampled_from([0.0, 1.0, -3.0, 380.0, 400, 5]))  # ints stay ints in JSON
     case["c2"] = draw(st.sampled_from([0.0, 2.0, 17.0]))
